@@ -104,6 +104,27 @@ func traverseAll(r *Run, pj *simdjson.ParsedJson, what string) bool {
 	if !check("lookup-walk", WalkFindBlind(pj)) {
 		return false
 	}
+	// ParsedJson.ForEach, and under each root AdvanceIter until it says there is no more (not only the first value)
+	err = safely(func() error {
+		steps := 0
+		return pj.ForEach(func(i simdjson.Iter) error {
+			var elem simdjson.Iter
+			for {
+				if steps++; steps > 4*len(pj.Tape)+64 {
+					return errStepCap
+				}
+				typ, err := i.AdvanceIter(&elem)
+				if err != nil || typ == simdjson.TypeNone {
+					return nil
+				}
+				elem.StringCvt()
+				elem.Interface()
+			}
+		})
+	})
+	if !check("ForEach-AdvanceIter", err) {
+		return false
+	}
 	err = safely(func() error {
 		it := pj.Iter()
 		var el simdjson.Element
@@ -575,7 +596,19 @@ func RunFaultBlob(r *Run) {
 					vals = binary.LittleEndian.AppendUint64(vals, v)
 				}
 				switch t {
-				case '"', 'e':
+				case 'e':
+					// a float with its flags travels as two raw tape words: whatever tag byte they carry lands on the tape
+					for w := 0; w < 2; w++ {
+						if c.Intn("synrawtag", 4) != 0 {
+							tg := alphabet[c.Intn("synrawtagv", len(alphabet))]
+							pv := []uint64{0, 1, 2, 3, uint64(slots + 1), uint64(slots + 3), 1<<56 - 1}[c.Intn("synrawval", 7)]
+							vals = binary.LittleEndian.AppendUint64(vals, uint64(tg)<<56|pv)
+						} else {
+							word()
+						}
+					}
+					slots += 2
+				case '"':
 					word()
 					word()
 					slots += 2
